@@ -360,7 +360,12 @@ func (ac *affCtx) describe(v ssa.Value) string {
 	case *ssa.Function:
 		return fname(x)
 	case *ssa.FreeVar:
-		return x.Name()
+		// a captured variable: what the enclosing function binds it to, marked as belonging to that function
+		// (never the variable's own name, which a rename would change)
+		if d, ok := ac.freeVarBinding(x); ok {
+			return "up(" + d + ")"
+		}
+		return fmt.Sprintf("captured<%s>", typeName(x.Type()))
 	case *ssa.Alloc:
 		// a local that only ever holds one parameter is that parameter
 		var src ssa.Value
@@ -513,4 +518,33 @@ func (ac *affCtx) argString(v ssa.Value) string {
 		}
 	}
 	return ac.describe(v)
+}
+
+
+// freeVarBinding describes, in the enclosing function's terms, the value a closure's free variable is bound to.
+func (ac *affCtx) freeVarBinding(fv *ssa.FreeVar) (string, bool) {
+	fn := fv.Parent()
+	parent := fn.Parent()
+	if parent == nil || ac.depth > 6 {
+		return "", false
+	}
+	idx := -1
+	for i, v := range fn.FreeVars {
+		if v == fv {
+			idx = i
+		}
+	}
+	var bound ssa.Value
+	n := 0
+	allInstrs(parent, func(in ssa.Instruction) {
+		if mc, ok := in.(*ssa.MakeClosure); ok && mc.Fn == ssa.Value(fn) && idx >= 0 && idx < len(mc.Bindings) {
+			bound = mc.Bindings[idx]
+			n++
+		}
+	})
+	if n != 1 || bound == nil {
+		return "", false
+	}
+	pc := &affCtx{c: ac.c, fn: parent, alias: map[ssa.Value]string{}, depth: ac.depth + 1}
+	return pc.describe(bound), true
 }
